@@ -286,4 +286,41 @@ theorem iou_comm (x1 y1 X1 Y1 x2 y2 X2 Y2 : R) :
   rw [iou_unfold, iou_unfold, min_comm X1 X2, max_comm x1 x2, min_comm Y1 Y2, max_comm y1 y2,
     add_comm ((X1 - x1 + 1) * (Y1 - y1 + 1))]
 
+theorem nanFold_min_le_max : ∀ (l : List (Option R)) (a b : R),
+    nanFold minR l = some a → nanFold maxR l = some b → a ≤ b
+  | [], _, _, h, _ => by simp [nanFold] at h
+  | none :: t, a, b, h1, h2 => by
+      simp only [nanFold] at h1 h2; exact nanFold_min_le_max t a b h1 h2
+  | some x :: t, a, b, h1, h2 => by
+      simp only [nanFold] at h1 h2
+      cases hm : nanFold minR t with
+      | none =>
+        cases hM : nanFold maxR t with
+        | none => rw [hm] at h1; rw [hM] at h2; simp at h1 h2; rw [← h1, ← h2]
+        | some M =>
+          rw [hm] at h1; rw [hM] at h2; simp at h1 h2
+          rw [← h1, ← h2, maxR_eq]; exact le_max_left _ _
+      | some m =>
+        cases hM : nanFold maxR t with
+        | none => rw [hm] at h1; rw [hM] at h2; simp at h1 h2; rw [← h1, ← h2, minR_eq]; exact min_le_left _ _
+        | some M =>
+          rw [hm] at h1; rw [hM] at h2; simp at h1 h2
+          rw [← h1, ← h2, minR_eq, maxR_eq]
+          exact le_trans (min_le_left _ _) (le_max_left _ _)
+
+theorem nanFold_some_of_mem (f : R → R → R) : ∀ (l : List (Option R)), (∃ x, some x ∈ l) →
+    ∃ v, nanFold f l = some v
+  | [], h => by obtain ⟨x, hx⟩ := h; simp at hx
+  | none :: t, h => by
+    obtain ⟨x, hx⟩ := h
+    simp only [List.mem_cons] at hx
+    rcases hx with hx | hx
+    · cases hx
+    · simp only [nanFold]; exact nanFold_some_of_mem f t ⟨x, hx⟩
+  | some a :: t, _ => by
+    simp only [nanFold]
+    cases nanFold f t with
+    | none => exact ⟨a, rfl⟩
+    | some b => exact ⟨f a b, rfl⟩
+
 end SleapVerif.Oks
